@@ -368,6 +368,27 @@ func genC01Atoms(g *G, id int) C01Case {
 			setProp(&c.Graph[k], *p0.P, vals)
 		}
 	}
+	if id%7 == 1 {
+		// near-twins as SIBLINGS of one connective: two list constraints of one kind on one property whose lists read alike once
+		// joined ("x,y" as one value against "x" and "y"; "1" twice against "1" and "1.0" is left out: numbers are texts here), in
+		// both operand orders, under or / and / the De Morgan twin. Each operand counts: a node may satisfy one and not the other.
+		texts := []string{"x,y", "x", "y", "x, y", "z"}
+		p0 := PP(g.pick(propPool), false)
+		kind := g.pick([]string{"in", "containsSome", "containsAll"})
+		a, b := len(c.Atoms), len(c.Atoms)+1
+		c.Atoms = append(c.Atoms, Atom{Kind: kind, Path: p0, Vals: []string{"x,y"}}, Atom{Kind: kind, Path: p0, Vals: []string{"x", "y"}})
+		A, B := Rule{Atom: ip(a)}, Rule{Atom: ip(b)}
+		c.Validations = append(c.Validations,
+			Validation{Name: "twinOr", Class: NS + "T", Rule: Rule{Or: []Rule{A, B}}},
+			Validation{Name: "twinOrRev", Class: NS + "T", Rule: Rule{Or: []Rule{B, A}}},
+			Validation{Name: "twinAnd", Class: NS + "T", Rule: Rule{And: []Rule{A, B}}},
+			Validation{Name: "twinDeMorgan", Class: NS + "T", Rule: Rule{Not: &Rule{And: []Rule{{Not: &A}, {Not: &B}}}}},
+			Validation{Name: "twinNor", Class: NS + "T", Rule: Rule{Not: &Rule{Or: []Rule{B, A}}}})
+		for k := range c.Graph {
+			// single-valued, so that the per-value atoms are classical
+			setProp(&c.Graph[k], *p0.P, []Val{VS(texts[(k+id)%len(texts)])})
+		}
+	}
 	if bigInts {
 		// numeric constraints and comparisons over the big values: make sure some atoms are numeric
 		p0, p1 := PP(g.pick(propPool), false), PP(g.pick(propPool), false)
